@@ -273,9 +273,10 @@ def shift(o, s):
     return ["P", [[v + s, c] for v, c in o[1]], [[v + s, c] for v, c in o[2]]]
 
 
-def one_step_disjoint(rng):
+def one_step_disjoint(rng, j=None):
     """two well-formed boxes that overlap at every step except step j"""
-    j = rng.choice([0, 0, 1, N // 2, N - 2, N - 1, N - 1, rng.randrange(N)])
+    if j is None:
+        j = rng.choice([0, 0, 1, N // 2, N - 2, N - 1, N - 1, rng.randrange(N)])
     xl = [0] * j + [10] * (N - j)
     xr = [20] * N
     yl = [-1] * N
@@ -333,17 +334,22 @@ def gen_families(ctx):
     rng.shuffle(tr)
     for t in tr[: ctx.scale(120, len(tr))]:
         fams.append(("grid", [GRID_POOL[i] for i in t]))
+    # exactly one disjoint step (first, second, middle, last but one, last), alone and beside a wide interval
+    for j in (0, 1, N // 2, N - 2, N - 1):
+        a, b = one_step_disjoint(rng, j)
+        fams.append(("grid", [a, b]))
+        fams.append(("grid", [["I", -30, 40], a, b]))
     # random exact streams, k = 1..5
-    for _ in range(ctx.scale(150, 6000)):
+    for _ in range(ctx.scale(240, 2500)):
         k = rng.choice([1, 2, 2, 3, 3, 4, 5])
         ops, mode = fam_core(rng, k, quarter=rng.random() < .4)
         fams.append(("core-" + mode, ops))
-    for _ in range(ctx.scale(60, 2500)):
+    for _ in range(ctx.scale(90, 1000)):
         k = rng.choice([2, 3, 4, 5])
         qt = rng.random() < .4
         fams.append(("random", [rand_operand(rng, qt, span=rng.choice([2, 6])) for _ in range(k)]))
     # library constructors / distributions / DS structures (binary64 values)
-    for _ in range(ctx.scale(40, 1500)):
+    for _ in range(ctx.scale(60, 600)):
         k = rng.choice([2, 2, 3, 4, 5])
         fams.append(("lib", [lib_operand(rng) for _ in range(k)]))
     # malformed: empty family, foreign objects, non-finite numbers
